@@ -74,11 +74,13 @@ def check(idx, run):
     # ---- R1 copy-in ----------------------------------------------------
     copies = [s for s in body if isinstance(s, ast.Assign) and
               ast.unparse(s.targets[0]) == todo]
-    ok = len(copies) == 1 and ast.unparse(copies[0].value) in (
-        f"copy.deepcopy({param})", f"deepcopy({param})")
-    ob("C27.R1", ok, "deep copy of the argument",
-       f"the worklist '{todo}' is not a deep copy of '{param}': the "
-       f"caller's map (or its sets) would be modified")
+    ok = len(copies) == 1 and faithful_copy(copies[0].value, param)
+    ob("C27.R1", ok, "worklist is a faithful deep copy of the argument",
+       f"the worklist '{todo}' is not built as an unmodified deep copy of "
+       f"'{param}' (copy.deepcopy, or a comprehension copying every set "
+       f"unchanged): either the caller's sets would be modified or "
+       f"dependencies are dropped / added while copying",
+       copies[0] if copies else None)
     touched = []
     for sub in ast.walk(func):
         if isinstance(sub, (ast.Assign, ast.AugAssign, ast.Delete)):
@@ -131,9 +133,12 @@ def check(idx, run):
             # `if dep not in todo:`
             good = guarded_not_in(forl, rem, dep, todo)
         ok_all = ok_all and good
-        ob("C27.R2", good, f"prune only unknown: {norm(rem)}",
-           f"'{norm(rem)}' can remove a dependency that *is* a key of the "
-           f"map: a real ordering constraint would be lost", rem)
+        ob("C27.R2", good, f"prune exactly the unknown: {norm(rem)}",
+           f"'{norm(rem)}' is not executed exactly when the dependency is "
+           f"not a key of the map (guard must be `{{dep}} in {todo}` -> "
+           f"skip): either a real ordering constraint is removed or an "
+           f"unknown dependency survives and its user is never 'ready'",
+           rem)
     if not removes_pre:
         run.note("C27.R2", "no pre-pass removal found: unknown "
                  "dependencies are not pruned (a module depending on an "
@@ -330,6 +335,37 @@ def check(idx, run):
                     sub.func.attr == "sort_modules":
                 callers += 1
     run.extra["callers_of_sort_modules"] = callers
+
+
+def faithful_copy(value, param):
+    """copy.deepcopy(param)  or  {k: set(v) for k, v in param.items()}
+    (also v.copy() / copy.copy(v) / set(v) / frozenset-free variants)."""
+    txt = ast.unparse(value)
+    if txt in (f"copy.deepcopy({param})", f"deepcopy({param})"):
+        return True
+    comp = value
+    if isinstance(comp, ast.Call) and ast.unparse(comp.func) in (
+            "dict", "OrderedDict") and len(comp.args) == 1:
+        comp = comp.args[0]
+    if isinstance(comp, (ast.DictComp, ast.GeneratorExp, ast.ListComp)) \
+            and len(comp.generators) == 1 and not comp.generators[0].ifs:
+        gen = comp.generators[0]
+        if ast.unparse(gen.iter) != f"{param}.items()" or \
+                not isinstance(gen.target, ast.Tuple) or \
+                len(gen.target.elts) != 2:
+            return False
+        kname = ast.unparse(gen.target.elts[0])
+        vname = ast.unparse(gen.target.elts[1])
+        if isinstance(comp, ast.DictComp):
+            key, val = comp.key, comp.value
+        elif isinstance(comp.elt, ast.Tuple) and len(comp.elt.elts) == 2:
+            key, val = comp.elt.elts
+        else:
+            return False
+        return ast.unparse(key) == kname and ast.unparse(val) in (
+            f"set({vname})", f"{vname}.copy()", f"copy.copy({vname})",
+            f"copy.deepcopy({vname})")
+    return False
 
 
 def guarded_not_in(forl, rem, dep, todo):
